@@ -105,13 +105,24 @@ def fresh_probe(flmod, path):
         finally:
             os._exit(0)
     os.close(w)
-    data = os.read(r, 1)
+    import select
+    import signal
+    ready, _, _ = select.select([r], [], [], 10.0)      # a non-blocking attempt must return at once
+    data = os.read(r, 1) if ready else b'T'
     os.close(r)
+    if not ready:
+        os.kill(pid, signal.SIGKILL)
     os.waitpid(pid, 0)
     return data == b'1'
 
 
 def run_world(flmod, w, path, prefix=(), expect=None):
+    # every execution starts from a pristine lock file (a change that writes to / unlinks the file must
+    # not leak state into the next execution)
+    try:
+        os.unlink(path)
+    except FileNotFoundError:
+        pass
     inherited = None
     if 'inherited' in [w['victim']] + list(w['contenders']):
         inherited = flmod.FileLock(path)
